@@ -36,6 +36,11 @@
 (*                         that does not open a placeholder, resumes after *)
 (*                         the next "}" instead of after the "{"           *)
 (*   "plural_by_magnitude" the plural form is selected for |n|             *)
+(*   "extra_cases_dropped" a plural with {case 1} and FURTHER explicit cases *)
+(*                         is accepted for extraction; the further cases   *)
+(*                         are not in the catalogue                        *)
+(*   "least_specific_wins" of the catalogues on a locale's fallback chain  *)
+(*                         the most general one is used                    *)
 (*   "builtin_rule_wins"   the plural form is selected by the built-in     *)
 (*                         rule of the catalogue's locale instead of the   *)
 (*                         rule its Plural-Forms header declares           *)
@@ -138,6 +143,23 @@ POBuiltinRule(l) == l
 
 POEffectiveRule(rule, locale) ==
   IF "builtin_rule_wins" \in PODev THEN POBuiltinRule(locale) ELSE rule
+
+\* Which catalogue a locale name selects.  A locale is [lang, script, region]
+\* ("" = not given); its fallback chain, by increasing generality:
+\* lang-script-region (if a region is given), lang-script (if a script is
+\* given), lang.  A catalogue named exactly as requested wins; else the FIRST
+\* of the chain for which a catalogue exists; else none.
+POLoc(l, sc, r) == [lang |-> l, script |-> sc, region |-> r]
+POChain(loc) ==
+  (IF loc.region # "" THEN <<loc>> ELSE <<>>)
+  \o (IF loc.script # "" THEN <<POLoc(loc.lang, loc.script, "")>> ELSE <<>>)
+  \o <<POLoc(loc.lang, "", "")>>
+POResolve(avail, loc) ==
+  LET ch == POChain(loc)
+      hits == SelectSeq(ch, LAMBDA x : x \in avail) IN
+  IF loc \in avail THEN <<loc>>
+  ELSE IF hits = <<>> THEN <<>>
+  ELSE IF "least_specific_wins" \in PODev THEN <<hits[Len(hits)]>> ELSE <<hits[1]>>
 
 (***************************************************************************)
 (* Strings <-> parts.  A catalogue string is text with {NAME} where NAME   *)
@@ -407,11 +429,24 @@ POFamPlural(n) ==
   {[kind |-> "plural", subj |-> s, cs |-> 1, cb |-> <<cb>>, db |-> db] :
       s \in 1..Len(POSubjects), cb \in bodies, db \in bodies}
 
-\* plurals PO cannot carry (the extractor must refuse them)
-POFamInvalid ==
-  UNION {
-    {[kind |-> "plural", subj |-> 1, cs |-> j, cb |-> [i \in 1..Len(POCaseSets[j]) |-> <<5>>], db |-> db] :
-        db \in {<<5>>, <<1, 5>>}} : j \in 2..Len(POCaseSets)}
+\* Plurals outside the shape PO can carry: no {case 1}, {case 0}, several
+\* explicit cases (with {case 1} first, last, twice), only {default}.  Every
+\* case says something different, so dropping one shows.  Such a message must
+\* be REFUSED by the extraction -- or, if it is extracted, the identity
+\* translation must still render what the source renders for every count.
+POBadCaseSets == << <<0, 1>>, <<2>>, <<>>, <<1, 2>>, <<1, 2, 5>>, <<1, 1>>, <<0>>, <<2, 1>> >>
+POBadBody(j) ==
+  << MPlural(POVarN,
+             [i \in 1..Len(POBadCaseSets[j]) |->
+                MCase(POBadCaseSets[j][i], <<MText("c" \o ToString(i) \o "=" \o ToString(POBadCaseSets[j][i]) \o " "), MPrint(POVarN)>>)],
+             <<MText("d "), MPrint(POVarN)>>) >>
+POFamInvalid == {[kind |-> "invalid", j |-> j] : j \in 1..Len(POBadCaseSets)}
+
+\* what the (possibly deviating) extraction accepts
+POValidateDev(body) ==
+  IF "extra_cases_dropped" \in PODev
+  THEN MsgWellFormed(body) /\ (MsgHasPlural(body) => Len(body[1].cases) >= 1 /\ body[1].cases[1].v = 1)
+  ELSE POValidate(body)
 
 \* extra messages: placeholders over globals
 POExtraBodies == <<
@@ -425,6 +460,7 @@ POFamExtra == {[kind |-> "extra", i |-> i] : i \in 1..Len(POExtraBodies)}
 
 POFamBody(d) ==
   IF d.kind = "flat" THEN MsgPick(PoolC11, d.ix)
+  ELSE IF d.kind = "invalid" THEN POBadBody(d.j)
   ELSE IF d.kind = "brace" THEN MsgPick(POBracePool, d.ix)
   ELSE IF d.kind = "extra" THEN POExtraBodies[d.i]
   ELSE << MPlural(POSubjects[d.subj],
@@ -434,6 +470,7 @@ POFamBody(d) ==
 POFamId(d) ==
   IF d.kind = "flat" THEN "F" \o MsgIxStr(d.ix)
   ELSE IF d.kind = "brace" THEN "B" \o MsgIxStr(d.ix)
+  ELSE IF d.kind = "invalid" THEN "I" \o ToString(d.j)
   ELSE IF d.kind = "extra" THEN "X" \o ToString(d.i)
   ELSE "P" \o ToString(d.subj) \o "c" \o ToString(d.cs) \o ":" \o MsgIxStrs(d.cb) \o "d" \o MsgIxStr(d.db)
 
@@ -445,6 +482,7 @@ POSumSeqs(q) == IF q = <<>> THEN 0 ELSE POSumSeq(Head(q)) + POSumSeqs(Tail(q))
 POShardOf(d, nshards) ==
   IF d.kind \in {"flat", "brace"} THEN POSumSeq(d.ix) % nshards
   ELSE IF d.kind = "extra" THEN d.i % nshards
+  ELSE IF d.kind = "invalid" THEN d.j % nshards
   ELSE (d.subj + d.cs + POSumSeqs(d.cb) + POSumSeq(d.db)) % nshards
 
 \* data
@@ -458,5 +496,5 @@ PONs == <<0, 1, 2, 3, 5, 11, 21, 22, 101, -1, -2, -7, -11, 1000000021>>
 \* the large family of plurals with two-part bodies is tried on fewer counts
 PONsShort == <<0, 1, 2, 5, 21, -1, -2, 1000000021>>
 POBigPlural(d) == d.kind = "plural" /\ Len(d.cb) > 0 /\ Len(d.cb[1]) + Len(d.db) > 2
-PONsFor(d) == IF d.kind # "plural" THEN <<3>> ELSE IF POBigPlural(d) THEN PONsShort ELSE PONs
+PONsFor(d) == IF d.kind = "invalid" THEN PONsShort ELSE IF d.kind # "plural" THEN <<3>> ELSE IF POBigPlural(d) THEN PONsShort ELSE PONs
 =============================================================================
